@@ -299,7 +299,12 @@ func dump(P *Program, args []string) {
 		}
 	}
 	if fn == nil {
-		fmt.Println("not found; candidates:"); for _, f := range P.Funcs { if f.Package() != nil && f.Package().Pkg.Path() == pkg { fmt.Println("  ", FuncDisplay(f)) } }
+		fmt.Println("not found; candidates:")
+		for _, f := range P.Funcs {
+			if f.Package() != nil && f.Package().Pkg.Path() == pkg {
+				fmt.Println("  ", FuncDisplay(f))
+			}
+		}
 		return
 	}
 	ff := FactsOf(fn)
